@@ -338,7 +338,7 @@ pub fn run(cfg: &RunCfg, replay: Option<&str>) -> i32 {
     let r = pr.run_regressions();
     pr.push(r);
     let c = pr.cfg.clone();
-    let r = run_lane(&c, "C09", &Lane { name: "writer-sequences", cases: c.cases(400_000, 10_000_000), max_len: 400, sched_len: 0, workers: 0, f: &case_writer });
+    let r = run_lane(&c, "C09", &Lane { name: "writer-sequences", cases: c.cases(1_500_000, 30_000_000), max_len: 400, sched_len: 0, workers: 0, f: &case_writer });
     pr.push(r);
     pr.finish()
 }
